@@ -2,7 +2,9 @@
    (partial: what is proved is the adapters' glue under the stated contract of each HTTP library
    [lib_behaviour]; sockets, framing, hangs and the libraries' internals are exercised only by the
    loopback correspondence run).  Statements only. *)
-From OA Require Import Bytes Requests Adapters Adapters_proofs Endpoint.
+From OA Require Import Bytes Requests Adapters Adapters_proofs Endpoint DevicePoll DeviceKinds Http
+     AdapterSession AdapterSession_proofs.
+From Coq Require Import ZArith.
 Local Open Scope N_scope.
 
 (* method, target, every header and the exact body reach the library (curl: with its length) *)
@@ -22,9 +24,35 @@ Theorem C09_classified_identically :
   forall (T E RE : Type) (parse_ok : bytes -> option T) (parse_err : bytes -> option E) a r,
     match adapter_call a (SReply r) with
     | Some r' => endpoint_response T E RE parse_ok parse_err (w_status r') (w_ct r') (w_body r')
-    | None => OOther Unbuildable
+    | None => Endpoint.OOther Unbuildable
     end = endpoint_response T E RE parse_ok parse_err (w_status r) (w_ct r) (w_body r).
 Proof. exact classified_identically. Qed.
+
+(* ... and so is a whole device-flow poll session: for every adapter, configuration, clock and
+   sequence of server behaviours (replies and connection faults) of any length, the session through
+   the adapter is the session of an in-memory client handed the same replies — same requests, same
+   waits, same outcome (400 authorization_pending keeps polling, a 5xx error document ends it, a
+   fault backs off) *)
+Theorem C09_session_identical :
+  forall (idx : result -> N) a c clock servers,
+    session_via idx a c clock servers = session_direct idx c clock servers.
+Proof. exact session_via_direct. Qed.
+
+Theorem C09_adapters_agree :
+  forall (idx : result -> N) a b c clock servers,
+    session_via idx a c clock servers = session_via idx b c clock servers.
+Proof. exact session_adapters_agree. Qed.
+
+(* non-vacuity, and what the theorem excludes: an adapter reporting 5xx replies as errors polls on
+   after a 503 access_denied (two polls instead of one, no access_denied outcome) *)
+Theorem C09_hiding_5xx_refuted :
+  snd (session_direct idx0 cfg0 [0; 1; 2; 3]%Z [denied503; denied503]) = OFinished 7 /\
+  polls (fst (session_direct idx0 cfg0 [0; 1; 2; 3]%Z [denied503; denied503])) = 1%nat /\
+  polls (fst (poll_run cfg0 [0; 1; 2; 3]%Z
+                (map (exchange_hiding idx0 (fun st => 500 <=? st)) [denied503; denied503]))) = 2%nat /\
+  snd (poll_run cfg0 [0; 1; 2; 3]%Z
+         (map (exchange_hiding idx0 (fun st => 500 <=? st)) [denied503; denied503])) <> OFinished 7.
+Proof. exact hiding_5xx_changes_the_session. Qed.
 
 (* a connection fault surfaces as an error value *)
 Theorem C09_faults_partial : forall a, adapter_call a SFault = None.
